@@ -39,7 +39,7 @@ ID = "C19"
 LEVEL = "exploration"
 TIERS = {
     "quick": {"runs": 12000, "wall": 60, "run_timeout": 240, "shrink_s": 40, "trials": 6},
-    "thorough": {"runs": 150000, "wall": 1000, "run_timeout": 400, "shrink_s": 120, "trials": 10},
+    "thorough": {"runs": 400000, "wall": 1000, "run_timeout": 400, "shrink_s": 120, "trials": 10},
 }
 RULE = ("case = seeded reference (1 annotator, 1..12 units with distinct segments, 1..4 categories) x magnitude x annotators (count or "
         "names) x trials; each trial = one flag combination for corpus_shuffle (all 64 reachable over the runs) + each single "
